@@ -120,6 +120,17 @@ CLAIMED = {
              'the relative-entropy rows with equality; on-boundary points are accepted).',
         technique='Lean 4 proof (constructed witness assignment, closed exponential cone) + model/implementation correspondence check',
         design_ref='DESIGN.md 4/C02'),
+    'C20': dict(
+        text='Theorems about the allocator state machine (index uniqueness within a generation by induction over all session '
+             'histories, the symmetric layout, generation windows of sessions with random offsets are disjoint, slices share '
+             'components, and for EVERY unpickling order the proper Variable ends up as the parent of its components). Tied to the '
+             'code by random histories executed in fresh interpreter processes (one per session) with pickled graphs carried across; '
+             'ids, names, generations, allocator counters and parent links are compared with the model; identity oracles (duplicate '
+             'ids, improper parents, probe LP optimum, duplicate names in builder Problems) run on the implementation.',
+        note='per-session generation offsets are random 40-bit numbers: cross-session disjointness holds unless two sessions draw the '
+             'same offset (probability 2^-40 per pair); CPython pickle trusted.',
+        technique='Lean 4 proof (invariants over operation histories) + model/implementation correspondence check across interpreter sessions',
+        design_ref='DESIGN.md 4/C20'),
 }
 
 NOT_YET = 'check not built yet in this session (planned, see DESIGN.md section 6); not claimed until its theorems and correspondence exist'
